@@ -44,9 +44,7 @@ func Emit(out *wh.Out, res *Result) {
 		out.Note("STUCK: " + s + " :: " + res.Sc.Describe())
 		out.Count("stuck")
 	}
-	if len(res.Stuck) > 0 {
-		out.Flush()
-	}
+	out.Flush() // keep the file current: a run stopped from outside must not lose the evidence gathered so far
 	if res.Leftover > 0 {
 		out.Note("LEFTOVER goroutine: " + strings.ReplaceAll(res.LeftDump, "\n", " | "))
 	}
